@@ -9,6 +9,7 @@ package main
 import (
 	"context"
 	"crypto/rand"
+	"crypto/sha256"
 	"encoding/binary"
 	"fmt"
 	"io"
@@ -20,7 +21,6 @@ import (
 	"github.com/aperturerobotics/bifrost/envelope"
 	"github.com/aperturerobotics/bifrost/hash"
 	link_solicit "github.com/aperturerobotics/bifrost/link/solicit"
-	link_solicit_controller "github.com/aperturerobotics/bifrost/link/solicit/controller"
 	"github.com/aperturerobotics/bifrost/peer"
 	"github.com/aperturerobotics/bifrost/pubsub/floodsub"
 	signaling "github.com/aperturerobotics/bifrost/signaling/rpc"
@@ -76,6 +76,8 @@ type decoder struct {
 	flat  bool
 	run   func(b []byte) string
 	seeds func(e *engine) [][]byte
+	// big: near-limit valid encodings; each is run valid and under a few mutations only
+	big func(e *engine) [][]byte
 }
 
 func okErr(err error) string {
@@ -87,7 +89,9 @@ func okErr(err error) string {
 
 func (e *engine) decoders() []decoder {
 	hdrMax := transport_controller.VerifStreamEstablishMaxPacketSize()
-	solMax := uint64(link_solicit_controller.VerifMaxMessageSize())
+	// The limits the real code applies are established by the real read loops (loops.go); the two
+	// framed decoders below are stream_packet.Session at the documented budget of each protocol.
+	solMax := uint64(solicitBudget)
 	signed := func() []byte {
 		m, _ := peer.NewSignedMsg("ctx", e.key, hash.HashType_HashType_BLAKE3, e.rng.Bytes(20))
 		b, _ := m.MarshalVT()
@@ -97,6 +101,16 @@ func (e *engine) decoders() []decoder {
 		m, _ := peer.NewSignedMsg("ctx", e.key, hash.HashType_HashType_BLAKE3, e.rng.Bytes(20))
 		p := &floodsub.Packet{Publish: []*peer.SignedMsg{m}, Subscriptions: []*floodsub.SubscriptionOpts{{ChannelId: "chan", Subscribe: true}}}
 		b, _ := p.MarshalVT()
+		return b
+	}
+	// bigPacket: a valid floodsub packet of about n encoded bytes whose bulk is the signed payload
+	bigPacket := func(n int) []byte {
+		m, _ := peer.NewSignedMsg("ctx", e.key, hash.HashType_HashType_BLAKE3, e.bulk(n-300))
+		p := &floodsub.Packet{Publish: []*peer.SignedMsg{m}, Subscriptions: []*floodsub.SubscriptionOpts{{ChannelId: "chan", Subscribe: true}}}
+		b, _ := p.MarshalVT()
+		if len(b) > n {
+			panic("bigPacket larger than asked")
+		}
 		return b
 	}
 	sessReq := func() []byte {
@@ -144,8 +158,8 @@ func (e *engine) decoders() []decoder {
 				got++
 			}
 		}, seeds: func(e *engine) [][]byte { return [][]byte{append(frame(e.rng.Bytes(30)), frame(e.rng.Bytes(5))...)} }},
-		{name: "pubsubSession", limit: 2000000 + 65536, run: func(b []byte) string {
-			s := stream_packet.NewSession(&byteReader{b: b}, 2000000)
+		{name: "pubsubSession", limit: pubsubBudget + 65536, run: func(b []byte) string {
+			s := stream_packet.NewSession(&byteReader{b: b}, pubsubBudget)
 			got := 0
 			for {
 				if err := s.RecvMsg(&floodsub.Packet{}); err != nil {
@@ -158,6 +172,8 @@ func (e *engine) decoders() []decoder {
 			}
 		}, seeds: func(e *engine) [][]byte {
 			return [][]byte{frame(packet()), append(frame(packet()), frame(nil)...)}
+		}, big: func(e *engine) [][]byte {
+			return [][]byte{frame(bigPacket(pubsubBudget - 2 - e.rng.Intn(5000))), append(frame(packet()), frame(bigPacket(pubsubBudget/3+e.rng.Intn(100000)))...)}
 		}},
 		{name: "solicitSession", limit: solMax + 65536, run: func(b []byte) string {
 			s := stream_packet.NewSession(&byteReader{b: b}, uint32(solMax))
@@ -175,16 +191,21 @@ func (e *engine) decoders() []decoder {
 			x := &link_solicit.SolicitationExchange{ProtocolHashes: [][]byte{e.rng.Bytes(32), e.rng.Bytes(32)}}
 			b, _ := x.MarshalVT()
 			return [][]byte{frame(b)}
+		}, big: func(e *engine) [][]byte {
+			return [][]byte{frame(e.solicitMsg(solicitBudget)), frame(e.solicitMsg(solicitBudget - 1 - e.rng.Intn(2000)))}
 		}},
 		{name: "floodsubPacket", flat: true, run: func(b []byte) string { return okErr((&floodsub.Packet{}).UnmarshalVT(b)) },
-			seeds: func(e *engine) [][]byte { return [][]byte{packet()} }},
+			seeds: func(e *engine) [][]byte { return [][]byte{packet()} },
+			big: func(e *engine) [][]byte {
+				return [][]byte{bigPacket(pubsubBudget - e.rng.Intn(3000)), bigPacket(60000 + e.rng.Intn(10000))}
+			}},
 		{name: "solicitExchange", flat: true, run: func(b []byte) string {
 			return okErr((&link_solicit.SolicitationExchange{}).UnmarshalVT(b))
 		}, seeds: func(e *engine) [][]byte {
 			x := &link_solicit.SolicitationExchange{ProtocolHashes: [][]byte{e.rng.Bytes(32)}}
 			b, _ := x.MarshalVT()
 			return [][]byte{b}
-		}},
+		}, big: func(e *engine) [][]byte { return [][]byte{e.solicitMsg(solicitBudget - e.rng.Intn(100))} }},
 		{name: "sessionRequest", flat: true, run: func(b []byte) string {
 			r := &signaling.SessionRequest{}
 			if err := r.UnmarshalVT(b); err != nil {
@@ -199,6 +220,32 @@ func (e *engine) decoders() []decoder {
 			}
 			return okErr(r.Validate())
 		}, seeds: func(e *engine) [][]byte { return [][]byte{sessResp()} }},
+		{name: "listenRequest", flat: true, run: func(b []byte) string {
+			return okErr((&signaling.ListenRequest{}).UnmarshalVT(b))
+		}, seeds: func(e *engine) [][]byte {
+			// the message has no fields: valid encodings are the empty one and unknown fields
+			return [][]byte{{}, {0x08, 0x01}, {0x12, 0x03, 'a', 'b', 'c'}, {0x08, 0x96, 0x01, 0x1a, 0x00}}
+		}},
+		{name: "listenResponse", flat: true, run: func(b []byte) string {
+			r := &signaling.ListenResponse{}
+			if err := r.UnmarshalVT(b); err != nil {
+				return "err"
+			}
+			// what the client does with it: the body names a remote peer
+			var id string
+			switch x := r.GetBody().(type) {
+			case *signaling.ListenResponse_SetPeer:
+				id = x.SetPeer
+			case *signaling.ListenResponse_ClearPeer:
+				id = x.ClearPeer
+			}
+			_, err := peer.IDB58Decode(id)
+			return okErr(err)
+		}, seeds: func(e *engine) [][]byte {
+			a, _ := (&signaling.ListenResponse{Body: &signaling.ListenResponse_SetPeer{SetPeer: pid.String()}}).MarshalVT()
+			c, _ := (&signaling.ListenResponse{Body: &signaling.ListenResponse_ClearPeer{ClearPeer: pid.String()}}).MarshalVT()
+			return [][]byte{a, c}
+		}},
 		{name: "signedMsg", flat: true, run: func(b []byte) string {
 			m, err := peer.UnmarshalSignedMsg(b)
 			if err != nil {
@@ -237,6 +284,20 @@ func (e *engine) decoders() []decoder {
 		{name: "privateKey", flat: true, run: func(b []byte) string { _, err := crypto.UnmarshalPrivateKey(b); return okErr(err) },
 			seeds: func(e *engine) [][]byte { return [][]byte{privB} }},
 	}
+}
+
+// bulk returns n bytes of filler built from a short random block (fast for megabyte payloads).
+func (e *engine) bulk(n int) []byte {
+	blk := e.rng.Bytes(4096)
+	out := make([]byte, 0, n)
+	for len(out) < n {
+		k := n - len(out)
+		if k > len(blk) {
+			k = len(blk)
+		}
+		out = append(out, blk[:k]...)
+	}
+	return out
 }
 
 func (e *engine) mutate(seed []byte, k int) []byte {
@@ -288,7 +349,7 @@ func (e *engine) mutate(seed []byte, k int) []byte {
 }
 
 func (e *engine) run() {
-	e.rep.Rule = "every network-facing decoder × (valid encodings; bit flips; truncations; extensions; length lies with 2^20..2^62 varints and 0xff runs; 12 boundary 32-bit length prefixes (2^32-1 … 2^32-8, 2^31, 2^31-1, …) in both byte orders; random bytes; duplicated chunks; group/unknown wire types); outcome must be ok/err (never panic), allocation of one call ≤ the decoder's configured limit (+ slack) or ≤ 64×input+64 KiB for unframed decoders; model comparison where a Lean model exists; distinct = distinct (decoder, input)"
+	e.rep.Rule = "every network-facing decoder (16, incl. signaling ListenRequest/ListenResponse) × (valid encodings of ordinary and near-limit size; bit flips; truncations; extensions; length lies with 2^20..2^62 varints and 0xff runs; 12 boundary 32-bit length prefixes (2^32-1 … 2^32-8, 2^31, 2^31-1, …) in both byte orders; random bytes; duplicated chunks; group/unknown wire types); outcome must be ok/err (never panic), allocation of one call ≤ the decoder's configured limit (+ slack) or ≤ 64×input+64 KiB for unframed decoders; model comparison where a Lean model exists; distinct = distinct (decoder, input). Real read loops (floodsub AddPeerStream→readPump; solicit HandleMountedStream and initiateControlStream → runControlStream) on scripted streams: valid traffic of ordinary and near-limit size, announced lengths at / one above / far above the protocol's budget with and without body, garbage, truncation; the receive-buffer sizes the loop passes to Read are compared with the Lean model at the generated call-site limits, and none may exceed the protocol's documented budget"
 	ds := e.decoders()
 	for _, d := range ds {
 		e.rep.Require("dec." + d.name + ".ok")
@@ -301,9 +362,17 @@ func (e *engine) run() {
 	edges := []uint32{0xffffffff, 0xfffffffe, 0xfffffffd, 0xfffffffc, 0xfffffffb, 0xfffffff8, 0xffffff00, 0x80000000, 0x7fffffff, 0x7ffffffc, 0x00010000, 0x0000ffff}
 	for _, d := range ds {
 		seeds := d.seeds(e)
-		for i := 0; i < n+2*len(edges); i++ {
+		var bigs [][]byte
+		if d.big != nil {
+			bigs = d.big(e)
+		}
+		bigMut := []int{0, 1, 2, 4}
+		for i := 0; i < n+2*len(edges)+len(bigs)*len(bigMut); i++ {
 			var b []byte
-			if i < n {
+			if i >= n+2*len(edges) {
+				k := i - n - 2*len(edges)
+				b = e.mutate(bigs[k/len(bigMut)], bigMut[k%len(bigMut)])
+			} else if i < n {
 				b = e.mutate(seeds[i%len(seeds)], i)
 			} else {
 				k := i - n
@@ -320,6 +389,9 @@ func (e *engine) run() {
 			}
 			out, alloc := measure(func() string { return d.run(b) })
 			limit0 := d.limit
+			if i >= n+2*len(edges) {
+				limit0 += 4 * uint64(len(b)) // near-limit valid messages: the decoded copy of the fields comes on top of the receive buffer
+			}
 			if d.flat {
 				limit0 = 64*uint64(len(b)) + 65536
 			}
@@ -338,6 +410,9 @@ func (e *engine) run() {
 				mon = fmt.Sprintf("decoder %s panics on %d input bytes: %s", d.name, len(b), lib.Trunc(out))
 			}
 			limit := d.limit
+			if i >= n+2*len(edges) {
+				limit += 4 * uint64(len(b)) // receive buffer ≤ configured limit, decoded copies ≤ a small multiple of the input
+			}
 			if d.flat {
 				limit = 64*uint64(len(b)) + 65536
 			}
@@ -345,6 +420,10 @@ func (e *engine) run() {
 				mon = fmt.Sprintf("decoder %s allocated %d bytes for a %d-byte input (limit %d)", d.name, alloc, len(b), limit)
 			}
 			op := fmt.Sprintf("dec.%s in=%s", d.name, lib.Hex(b))
+			if len(b) > 2048 {
+				h := sha256.Sum256(b)
+				op = fmt.Sprintf("dec.%s in=%s… len=%d sha256=%x", d.name, lib.Hex(b[:48]), len(b), h[:8])
+			}
 			model := out
 			// model comparison where one exists
 			switch d.name {
@@ -391,6 +470,7 @@ func main() {
 		return
 	}
 	e.run()
+	e.runLoops()
 	e.m.Close()
 	e.rep.Write(a.Out)
 }
